@@ -228,7 +228,7 @@ void vf::run_case(Src &s, Ctx &c)
     // the library's own demos call the setters: whatever a space derives from delta and lambda must follow the later call.
     if ((uint64_t)(delta * 1e7) % 3 == 0)
     {
-        lambda = 1.0 + 0.5 * (lambda - 1.0);
+        lambda = 1.0 + 0.05 * (lambda - 1.0);  // 1.01 .. 1.2: close to the stretch that projecting a step onto a curved manifold causes
         css->setLambda(lambda);
         c.count("configuration:lambda-tightened-after-setup");
     }
